@@ -77,3 +77,4 @@
 (declare-fun rtElem (Int) Int)                    ; reflect.Type.Elem
 (declare-fun rtKey (Int) Int)                     ; reflect.Type.Key
 (declare-fun rvZeroX (Int) Int)                  ; interface content of reflect.Zero(t)
+(declare-fun rangeCopyOf (Int Int) Int)          ; what genValueRangeArray(node) yields in a frame: the range operand evaluated once, arrays copied (A2)
